@@ -485,7 +485,10 @@ impl<Word: BitArray, B: WriteWords<Word>> StackCoder<Word, B> {
                 // A stack of compressed data must not end in a zero word.
                 return Err(CoderError::Frontend(compressed));
             }
-            let mask_end_bit = Word::one() << last_word.trailing_zeros() as usize;
+            // The end marker is the *highest* set bit of the last word: bits fill a word
+            // from the least significant end and `into_compressed` puts the terminating
+            // `1` bit above the last data bit.
+            let mask_end_bit = Word::one() << (Word::BITS - 1 - last_word.leading_zeros() as usize);
             (last_word ^ mask_end_bit, mask_end_bit >> 1)
         } else {
             (Word::zero(), Word::zero())
